@@ -350,7 +350,10 @@ def r3_keyerror_discipline(R) -> None:
     f = Fn(R, q)
     period = f.fi.params()[1]
     hs = [n for n in f.cfg.nodes if n.kind == 'except']
-    R.expect(q, len(hs), 2, 'exception handlers around the search methods')
+    R.expect(q, len(hs), 1, 'exception handlers around the search methods')
+    for r in f.returns():
+        R.check(bool(r.trys), q, 'search-protected:' + text(r.ast.value)[:40], 'every search method is called inside a try whose handler turns failures into KeyError',
+                f'`return {text(r.ast.value)[:50]}` is outside any try: a failure of the search method escapes as whatever it raises, not KeyError', where=f.where(r))
     for h in hs:
         broad = h.ast.type is None or text(h.ast.type).split('.')[-1] in ('Exception', 'BaseException')
         R.check(broad, q, f'handler-breadth:{text(h.ast.type) if h.ast.type else "bare"}', 'every failure of a search method is translated (except Exception)',
@@ -364,9 +367,30 @@ def r3_keyerror_discipline(R) -> None:
                 'a failed lookup surfaces as KeyError(period) chained to the cause',
                 f'handler `{h.label()}` ends in `{text(last)[:60] if last is not None else "nothing"}` instead of `raise KeyError({period}) from {h.ast.name}`: a missing label could alias another period',
                 where=f.where(h))
+    se3 = None
     for r in f.returns():
         v = r.ast.value
         ok = isinstance(v, ast.Call) and len(v.args) >= 1 and text(v.args[0]) == period
+        if not ok and isinstance(v, ast.Call):
+            # the callable and its arguments chosen first, applied afterwards (`fn, args = m, (period, span)` ... `return fn(*args)`):
+            # read every value the call can take
+            from fsa.gated import canon, leaves, lift_ifs
+            se3 = se3 or f.symexec()
+            try:
+                lv = leaves(canon(lift_ifs(canon(se3.value(r.ast, v)))))
+            except (Unsupported, Unknown):
+                lv = []
+            def first_arg(c_):
+                if not isinstance(c_, ast.Call) or not c_.args:
+                    return None
+                a0 = c_.args[0]
+                if isinstance(a0, ast.Starred) and isinstance(a0.value, (ast.Tuple, ast.List)) and a0.value.elts:
+                    a0 = a0.value.elts[0]
+                return text(a0)
+            if lv and all(first_arg(c_) == period for (_f, c_) in lv):
+                ok = True
+            elif lv and not any(first_arg(c_) is not None and first_arg(c_) != period and not first_arg(c_).startswith('*') for (_f, c_) in lv):
+                raise Unknown(f'{q}: `return {text(v)[:50]}`: what the search method is applied to was not read')
         R.check(ok, q, 'return:' + text(v)[:50], 'positions come only from a search method applied to the label',
                 f'`return {text(v)[:50]}` returns a default position', where=f.where(r))
     # fallback: role-based (the array of matching positions = <...>.nonzero()[0] / np.flatnonzero(...))
@@ -377,15 +401,52 @@ def r3_keyerror_discipline(R) -> None:
             f'the fallback does not compare `np.asarray({span}, dtype=object) == {per}` (a cast of the label to the span dtype would alias absent labels)', where=fb.fi.where)
 
     def count_fact(nid: int, n: int) -> bool:
-        """Is `number of matches == n` known at node nid (len(<arr>) == n, directly or through a local)?"""
+        """Is `number of matches == n` known at node nid?  The guards on `len(<matches>)` (directly or through a local), in
+        any spelling (`== 1`, `> 1` false and `== 0` false, truthiness), are intersected as an interval of the naturals."""
+        lo, hi = 0, None
+        excluded = set()
+        seen_any = False
         for (a, truth, _t) in fb.guard_atoms(nid):
             ea = fb.expand(nid, a, depth=3)
-            if truth and isinstance(ea, ast.Compare) and len(ea.ops) == 1 and isinstance(ea.ops[0], ast.Eq):
-                l, r_ = ea.left, ea.comparators[0]
-                for x, y in ((l, r_), (r_, l)):
-                    if is_call(x, 'len') and is_const(y, n):
-                        return True
-        return False
+            if is_call(ea, 'len') or (isinstance(ea, ast.Name) and ea.id in fb.lf.locals):
+                # truthiness of the count / of the collection itself
+                if is_call(ea, 'len'):
+                    seen_any = True
+                    if truth:
+                        lo = max(lo, 1)
+                    else:
+                        hi = 0
+                continue
+            if not (isinstance(ea, ast.Compare) and len(ea.ops) == 1):
+                continue
+            l, r_ = ea.left, ea.comparators[0]
+            op = type(ea.ops[0])
+            if is_call(r_, 'len') and isinstance(l, ast.Constant):
+                l, r_ = r_, l
+                op = {ast.Lt: ast.Gt, ast.Gt: ast.Lt, ast.LtE: ast.GtE, ast.GtE: ast.LtE}.get(op, op)
+            if not (is_call(l, 'len') and isinstance(r_, ast.Constant) and type(r_.value) is int):
+                continue
+            seen_any = True
+            c = r_.value
+            if not truth:
+                op = {ast.Eq: ast.NotEq, ast.NotEq: ast.Eq, ast.Lt: ast.GtE, ast.GtE: ast.Lt, ast.Gt: ast.LtE, ast.LtE: ast.Gt}.get(op)
+            if op is ast.Eq:
+                lo, hi = max(lo, c), c if hi is None else min(hi, c)
+            elif op is ast.NotEq:
+                excluded.add(c)
+            elif op is ast.Lt:
+                hi = c - 1 if hi is None else min(hi, c - 1)
+            elif op is ast.LtE:
+                hi = c if hi is None else min(hi, c)
+            elif op is ast.Gt:
+                lo = max(lo, c + 1)
+            elif op is ast.GtE:
+                lo = max(lo, c)
+        while lo in excluded:
+            lo += 1
+        while hi is not None and hi in excluded:
+            hi -= 1
+        return seen_any and hi is not None and lo == hi == n
 
     ks = fb.raises('KeyError')
     if R.require(fb.q, len(ks), 'raise KeyError when nothing matches', fi=fb.fi, pred=lambda x: isinstance(x, ast.Raise)):
